@@ -19,9 +19,9 @@
 (***************************************************************************)
 EXTENDS Props, Json, IOUtils, TLCExt
 
-VARIABLES l, view, obs
+VARIABLES l, view, obs, accSnap
 
-tvars == <<allvars, l, view, obs>>
+tvars == <<allvars, l, view, obs, accSnap>>
 
 Log == ndJsonDeserialize(IOEnv.TRACE_FILE)
 
@@ -190,7 +190,7 @@ TraceInit ==
     /\ bal = [a \in Tracked |-> [d \in Denoms |-> 0]] /\ vest = {} /\ exists = {} /\ supply = [d \in Denoms |-> 0] /\ rest = [d \in Denoms |-> 0]
     /\ grants = {} /\ act = [name |-> "none"]
     /\ acked = {} /\ accepted = {}
-    /\ view = << >> /\ obs = << >>
+    /\ view = << >> /\ obs = << >> /\ accSnap = {}
 
 TraceNext ==
     /\ l <= Len(Log)
@@ -198,16 +198,24 @@ TraceNext ==
     /\ LET rec == Log[l] IN
        /\ Observe(rec)
        /\ acked' = R(rec.acked)
-       /\ IF rec.ev = "init"
-          THEN /\ accepted' = {}
-               /\ StateProps
-               /\ Drift("junk", obs'.junk = 0)
-          ELSE /\ accepted' = accepted \cup NewAccepted(act')
-               /\ StepProps
-               /\ StateProps
-               /\ Conformance
-               \* the harness' own bookkeeping of acknowledged records agrees with the specification's
-               /\ Drift("acked", acked' = acked \cup NewAcks(act', height))
+       /\ CASE rec.ev = "init" ->          \* a new trace starts
+                 /\ accepted' = {} /\ accSnap' = {}
+                 /\ StateProps
+                 /\ Drift("junk", obs'.junk = 0)
+            [] rec.ev = "mark" ->          \* tour: the state every following transaction is fired at
+                 /\ accepted' = accepted /\ accSnap' = accepted
+                 /\ StateProps
+            [] rec.ev = "reset" ->         \* tour: the harness went back to the marked (committed) state
+                 /\ accepted' = accSnap /\ accSnap' = accSnap
+                 /\ StateProps
+            [] OTHER ->
+                 /\ accepted' = accepted \cup NewAccepted(act')
+                 /\ accSnap' = accSnap
+                 /\ StepProps
+                 /\ StateProps
+                 /\ Conformance
+                 \* the harness' own bookkeeping of acknowledged records agrees with the specification's
+                 /\ Drift("acked", acked' = acked \cup NewAcks(act', height))
 
 TraceSpec == TraceInit /\ [][TraceNext]_tvars
 
